@@ -266,6 +266,10 @@ pub struct HookLog {
     pub follower_past_leader_by_rounding: usize,
     /// executions of the instrumented unsafe blocks of free_path.rs during this run
     pub site_hits: std::collections::BTreeMap<&'static str, u64>,
+    pub attempts_total: usize,
+    pub attempts_this_iteration: usize,
+    pub attempt_iteration: usize,
+    pub max_attempts_per_iteration: usize,
 }
 
 fn active_train(auths: &[altrios_core::meet_pass::disp_structs::DispAuth]) -> Option<u16> {
@@ -338,6 +342,11 @@ pub struct DispatchOutcome {
     pub log: HookLog,
 }
 
+/// attempts to advance one train within one outer iteration (each successful attempt moves it by at least one
+/// of its dispatch nodes; generated paths have fewer than 2000 nodes)
+pub const INNER_ATTEMPT_BOUND: usize = 20_000;
+pub const OUTER_ITERATION_BOUND: usize = 5_000_000;
+
 pub fn run_with_hook(links: &[Link], sims: &[altrios_core::prelude::SpeedLimitTrainSim], nets: Vec<EstTimeNet>) -> DispatchOutcome {
     let log = Rc::new(RefCell::new(HookLog::default()));
     let l2 = log.clone();
@@ -345,7 +354,29 @@ pub fn run_with_hook(links: &[Link], sims: &[altrios_core::prelude::SpeedLimitTr
     set_dispatch_observer(Some(Box::new(move |s: &DispatchSnapshot| {
         let mut g = l2.borrow_mut();
         g.iterations = s.iteration;
+        if s.phase == DispatchPhase::AdvanceAttempt {
+            // bounded progress, decided on logical steps: a correct inner loop moves the selected train by at
+            // least one node per attempt, and the outer loop handles one train per iteration
+            if g.attempt_iteration != s.iteration {
+                g.attempt_iteration = s.iteration;
+                g.attempts_this_iteration = 0;
+            }
+            g.attempts_total += 1;
+            g.attempts_this_iteration += 1;
+            g.max_attempts_per_iteration = g.max_attempts_per_iteration.max(g.attempts_this_iteration);
+            let stuck_inner = g.attempts_this_iteration > INNER_ATTEMPT_BOUND;
+            let stuck_outer = s.iteration > OUTER_ITERATION_BOUND;
+            drop(g);
+            if stuck_inner {
+                panic!("VERIF-BOUND inner: train {:?} was asked to advance more than {INNER_ATTEMPT_BOUND} times within outer iteration {}", s.train_idx_moved, s.iteration);
+            }
+            if stuck_outer {
+                panic!("VERIF-BOUND outer: more than {OUTER_ITERATION_BOUND} outer iterations");
+            }
+            return;
+        }
         match s.phase {
+            DispatchPhase::AdvanceAttempt => {}
             DispatchPhase::AfterAdvance => g.after_advance += 1,
             DispatchPhase::AfterRewind => g.after_rewind += 1,
             DispatchPhase::EndOfIteration => g.end_of_iteration += 1,
@@ -436,6 +467,12 @@ pub fn check_plan(ctx: &mut Ctx, inst: &Instance, out: &DispatchOutcome, nets: &
             }
             return stats;
         }
+        Err(p) if p.message.starts_with("VERIF-BOUND") => {
+            let which = if p.message.starts_with("VERIF-BOUND inner") { "inner_loop_makes_no_progress" } else { "outer_loop_does_not_end" };
+            emit(ctx, "C05", "bounded_progress", &format!("C05:does_not_terminate:{which}"), format!("run_dispatch stopped by the monitor: {}", p.message), info.clone());
+            obs(ctx, "C05", "obs.dispatch_stopped_by_progress_bound");
+            return stats;
+        }
         Err(p) => {
             let loc = p.location.rsplit('/').next().unwrap_or("").to_string();
             emit(ctx, "C05", "no_abort", &format!("C05:panic:{loc}"), format!("run_dispatch panicked: {} at {}", p.message.chars().take(200).collect::<String>(), p.location), info.clone());
@@ -487,6 +524,8 @@ pub fn check_plan(ctx: &mut Ctx, inst: &Instance, out: &DispatchOutcome, nets: &
         ctx.rep.max("max_iterations_per_disp_node", out.log.iterations as f64 / total_nodes.max(1) as f64);
         ctx.add("obs.outer_iterations", out.log.iterations as u64);
         ctx.add("obs.rewinds", out.log.after_rewind as u64);
+        ctx.add("obs.advance_attempts", out.log.attempts_total as u64);
+        ctx.rep.max("max_advance_attempts_in_one_outer_iteration", out.log.max_attempts_per_iteration as f64);
         if out.log.iterations > 200 * total_nodes.max(1) {
             emit(ctx, "C05", "bounded_progress", "C05:iteration_bound", format!("{} outer iterations for {total_nodes} dispatch nodes", out.log.iterations), info.clone());
         }
